@@ -88,6 +88,7 @@ structure St where
   -- source provider P (ghost observations for C02)
   cursor : Nat              -- next source index
   emitting : Nat            -- goroutines currently inside P.Emit
+  closes : Nat              -- ghost: number of calls of P.Close (the source was opened by the open sequence before `init`)
   srcClosed : Bool          -- P.Close has been called
   badWindow : Bool          -- sticky: an Emit started after Close was called
   badOverlap : Bool         -- sticky: Close was called while an Emit was running
@@ -136,7 +137,7 @@ inductive Label
   deriving DecidableEq, Repr
 
 def init (cfg : Cfg) : St :=
-  { cursor := 0, emitting := 0, srcClosed := false, badWindow := false, badOverlap := false,
+  { cursor := 0, emitting := 0, closes := 0, srcClosed := false, badWindow := false, badOverlap := false,
     prod := .top, srcChan := [], srcChClosed := false, pStopped := false, pcancel := false,
     wIdle := cfg.c, wMap := [], wHold := [], wExit := 0, tgtChan := [], tgtClosed := false,
     eof := false, ctx0 := false, term1 := false,
@@ -242,7 +243,7 @@ def step (cfg : Cfg) (s : St) : Label → Option St
     if s.cons = .closeW ∧ s.pStopped then some { s with cons := .closeP } else none
   | .cCloseP =>    -- the source's own lifecycle elements: P.Close() is called
     if s.cons = .closeP then
-      some { s with cons := .close1, srcClosed := true, badOverlap := s.badOverlap || decide (0 < s.emitting) }
+      some { s with cons := .close1, srcClosed := true, closes := s.closes + 1, badOverlap := s.badOverlap || decide (0 < s.emitting) }
     else none
   | .cClose1 =>    -- unsafe_stream_provider.go:41 cancel of the sub-stream ctx; :108-110 provider Close (no-op :20)
     if s.cons = .close1 then some { s with cons := .close2 } else none
